@@ -51,6 +51,90 @@ def plain_arm(m, d):
     return []
 
 
+class Dispatch:
+    """One mux/plain dispatch: an ``if isinstance(source, MuxObservable)`` statement, or a call of a dispatch helper
+    (a repository function whose operator applies its first function to MuxObservables and its second one to
+    Observables: select_by_source(mux=A(...), obs=B(...)))."""
+
+    def __init__(self, node, mux_nodes, plain_nodes, mux_call, plain_call, form):
+        self.node = node
+        self.mux_nodes = mux_nodes
+        self.plain_nodes = plain_nodes
+        self.mux_call = mux_call
+        self.plain_call = plain_call
+        self.form = form
+
+
+def _call_triple(v):
+    if isinstance(v, ast.Call) and isinstance(v.func, ast.Call):
+        inner = v.func
+        return ast.unparse(inner.func), [ast.unparse(a) for a in inner.args] + [ast.unparse(k.value) for k in inner.keywords], inner
+    if isinstance(v, ast.Call):
+        return ast.unparse(v.func), [ast.unparse(a) for a in v.args] + [ast.unparse(k.value) for k in v.keywords], v
+    return None
+
+
+def _dispatch_helpers(prog):
+    """{FunctionDef: (mux parameter, plain parameter)} of the repository's dispatch helpers."""
+    cache = prog.__dict__.setdefault("_dispatch_helpers", None)
+    if cache is not None:
+        return cache
+    out = {}
+    for rel, m in sorted(prog.by_relpath.items()):
+        for name, b in m.bindings.items():
+            if b[0] != "def":
+                continue
+            H = b[1]
+            params = [a.arg for a in H.args.args + H.args.kwonlyargs]
+            for d in _dispatches(prog, m, H):
+                def applied(stmts):
+                    rets = [x for x in stmts if isinstance(x, ast.Return)]
+                    if len(rets) == 1 and isinstance(rets[0].value, ast.Call) and isinstance(rets[0].value.func, ast.Name) \
+                            and rets[0].value.func.id in params and len(rets[0].value.args) == 1:
+                        return rets[0].value.func.id
+                    return None
+                a, c = applied(d.body), applied(plain_arm(m, d))
+                if a is not None and c is not None and a != c:
+                    out[H] = (a, c)
+    prog.__dict__["_dispatch_helpers"] = out
+    return out
+
+
+def dispatch_sites(prog, m, fn, own_only=False):
+    out = []
+    for d in _dispatches(prog, m, fn):
+        if own_only and m.enclosing_function(d) is not fn:
+            continue
+        pa = plain_arm(m, d)
+        out.append(Dispatch(d, list(d.body), list(pa), _arm_call(d.body), _arm_call(pa), "if"))
+    helpers = _dispatch_helpers(prog)
+    if helpers and fn not in helpers:
+        for n in ast.walk(fn):
+            if not isinstance(n, ast.Call):
+                continue
+            if own_only and m.enclosing_function(n) is not fn:
+                continue
+            dn = dotted_name(n.func)
+            if dn is None:
+                continue
+            ref = prog.resolve_dotted(m, dn)
+            if ref[0] != "def" or ref[2] not in helpers:
+                continue
+            H = ref[2]
+            mp, pp = helpers[H]
+            pos = [a.arg for a in H.args.args]
+            given = {}
+            for k, a in enumerate(n.args):
+                if k < len(pos):
+                    given[pos[k]] = a
+            for kw in n.keywords:
+                if kw.arg:
+                    given[kw.arg] = kw.value
+            if mp in given and pp in given:
+                out.append(Dispatch(n, [given[mp]], [given[pp]], _call_triple(given[mp]), _call_triple(given[pp]), "helper"))
+    return out
+
+
 def _dual_operators(ctx):
     prog = ctx.program
     out = []
@@ -72,8 +156,8 @@ def rule_ag1(ctx: Ctx) -> RuleResult:
     memo = {}
 
     def in_plain_arm(m, fn, node):
-        for d in _dispatches(prog, m, fn):
-            for s in plain_arm(m, d):
+        for d in dispatch_sites(prog, m, fn):
+            for s in d.plain_nodes:
                 for x in ast.walk(s):
                     if x is node:
                         return True
@@ -86,7 +170,7 @@ def rule_ag1(ctx: Ctx) -> RuleResult:
             return memo[key]
         memo[key] = []
         probs = []
-        has_dispatch = bool(_dispatches(prog, m, fn))
+        has_dispatch = bool(dispatch_sites(prog, m, fn))
         for n in ast.walk(fn):
             if not isinstance(n, ast.Call):
                 continue
@@ -127,7 +211,7 @@ def rule_ag1(ctx: Ctx) -> RuleResult:
         else:
             r.ob(True)
         # an operator that neither dispatches nor delegates is not dual
-        has_dispatch = bool(_dispatches(prog, m, fn))
+        has_dispatch = bool(dispatch_sites(prog, m, fn))
         delegates = any(isinstance(n, ast.Call) and _resolves_to_rxsci_operator(prog, m, n) for n in ast.walk(fn))
         r.ob(has_dispatch or delegates, lambda: Finding(
             "AG-1", "%s::%s{no-mux-arm}" % (m.relpath, fn.name), m.where(fn),
@@ -171,15 +255,14 @@ def rule_ag2(ctx: Ctx) -> RuleResult:
     n = 0
     for rel, m in sorted(prog.by_relpath.items()):
         for fn in [f for f in m.scopes if isinstance(f, ast.FunctionDef)]:
-            for d in _dispatches(prog, m, fn):
-                if m.enclosing_function(d) is not fn:
-                    continue
+            for ds in dispatch_sites(prog, m, fn, own_only=True):
+                d = ds.node
                 n += 1
                 r.instances += 1
-                a, b = _arm_call(d.body), _arm_call(plain_arm(m, d))
+                a, b = ds.mux_call, ds.plain_call
                 if a is None or b is None:
                     # tee_map: the arms build the connectable (checked by TM-3); assert_1: arms return closures
-                    ta = ast.unparse(d.body[0])[:60] if d.body else ""
+                    ta = ast.unparse(ds.mux_nodes[0])[:60] if ds.mux_nodes else ""
                     r.notes.append("%s: arms are not calls of sibling operators (%s ...); covered by TM-3 / AG-3" % (m.where(d), ta))
                     continue
                 fa, aa, na = a
